@@ -1286,10 +1286,12 @@ impl<const M: usize> Sim<M> {
                 } else if true_size > (64u128 << 20) || (claimed as u128) != true_size {
                     // cannot possibly have been reserved under the 64 MiB allocator cap
                     rep.violate("C19", format!("C19/impossible-size-accepted/{}", name), format!("true size {:#x} bytes, returned ptr {:#x} claiming {:#x} ({})", true_size, p, claimed, self.cur));
+                    rep.violate("C01", format!("C01/outside-held-memory/huge:{}", name), format!("a request of {:#x} bytes was answered with {:#x}: no such block lies inside memory the arena holds ({})", true_size, p, self.cur));
                 } else if claimed > 0 {
                     let held = self.chunks.iter().any(|c| c.base <= p && p + claimed <= c.base + c.size - self.k);
                     if !held {
                         rep.violate("C19", format!("C19/claimed-extent-not-held/{}", name), format!("[{:#x},+{:#x}) ({})", p, claimed, self.cur));
+                        rep.violate("C01", format!("C01/outside-held-memory/huge:{}", name), format!("[{:#x},+{:#x}) ({})", p, claimed, self.cur));
                     } else {
                         // really reserved (below the cap): track it like any block
                         let id = self.next_id;
